@@ -54,6 +54,10 @@ package oidc
 
 //@ func NewVerifier
 //@ safety
+//@ prop C19 C04
+//@ ensures[nonnil:wraps-the-given-go-oidc-verifier] result != nil && typeis(result, "*idTokenVerifier") && as(result, "*idTokenVerifier").verifier == iv
+//@     && as(result, "*idTokenVerifier").allowedAudiences != nil
+//@ scan[nonnil:verifier-allocated-by-its-constructor] alloc-of pkg/providers/oidc.idTokenVerifier pkg/providers/oidc.NewVerifier
 //@ prop C04
 //@ loop 0 invariant[client-id-stays-allowed] rangeindex >= -1 && inmap(allowedAudiences, vo.ClientID)
 //@     && forall j int :: 0 <= j && j <= rangeindex ==> inmap(allowedAudiences, vo.ExtraAudiences[j])
